@@ -369,7 +369,8 @@ def to_poly(t):
 
 
 def _aff_as_disjoint(t):
-    """if t = c + sum 2^s_a * zext(atom_a) with pairwise disjoint bit ranges"""
+    """if t = c + sum 2^s_a * zext(slice_a) with pairwise disjoint bit ranges, where slice_a is a contiguous
+    bit-slice of an atom (the whole atom in the common case)"""
     w = t.w
     c, ents = t.aux
     occupied = c
@@ -379,20 +380,33 @@ def _aff_as_disjoint(t):
     for at, p in zip(t.args, ents):
         wa = at.w
         cs = cols(p, w, wa)
-        # pure shift: column j == 1 << (j+s) (or 0 once j+s >= w)
-        if cs[0] == 0 or cs[0] & (cs[0] - 1):
+        nz = [j for j in range(wa) if cs[j]]
+        if not nz:
+            continue
+        lo, hi = nz[0], nz[-1] + 1
+        c0 = cs[lo]
+        if c0 & (c0 - 1):
             return None
-        s = cs[0].bit_length() - 1
+        s = c0.bit_length() - 1
         span = 0
-        for j in range(wa):
-            exp = (1 << (j + s)) if j + s < w else 0
+        for j in range(lo, hi):
+            exp = (1 << (j - lo + s)) if j - lo + s < w else 0
             if cs[j] != exp:
                 return None
             span |= exp
+        # columns above the slice must be zero only because they fall off the top, or the slice is partial
         if span & occupied:
             return None
         occupied |= span
-        poly[(_atom_reg(at),)] = 1 << s
+        if lo == 0 and (hi == wa or hi - lo + s >= w):
+            atom = at
+        else:
+            atom = trunc(lshr(at, lo), hi - lo) if lo else trunc(at, hi - lo)
+            if atom.op == "aff" and len(atom.args) == 1 and atom.args[0] is at and atom.w == hi - lo:
+                pass
+            if atom.op == "const":
+                return None
+        poly[(_atom_reg(atom),)] = poly.get((_atom_reg(atom),), 0) + (1 << s)
     return poly
 
 
@@ -590,6 +604,8 @@ def eqz(d):
         return FALSE
     if d.w == 1:
         return bnot(d)
+    if d.op == "ite":
+        return ite(d.args[0], eqz(d.args[1]), eqz(d.args[2]))
     if d.op == "aff" or d.op != "ring":
         c, e = aff_parts(d)
         w = d.w
@@ -615,13 +631,19 @@ def eqz(d):
             if key in rows and rows[key] != cb:
                 return FALSE  # r = 0 and r = 1 simultaneously
             rows[key] = cb
-        # each distinct row r with const cb: need r ^ cb == 0  <=>  bit term (r ^ cb ^ 1) is 1
+        # atoms all of whose bits must individually be zero: one whole-atom test eqz(atom)
         bits = []
+        for a in atoms:
+            ks = [((a.id, 1 << j),) for j in range(a.w)]
+            if a.w > 1 and all(k in rows and rows[k] == 0 for k in ks):
+                for k in ks:
+                    del rows[k]
+                bits.append(_mk("eqz", 1, (a,)))
+        # each remaining distinct row r with const cb: need r ^ cb == 0  <=>  bit term (r ^ cb ^ 1) is 1
         for key in sorted(rows):
             ents = {}
             for aid, m in key:
                 a = _byid(atoms, aid)
-                # 1-bit output: column j = bit j of m
                 ents[a] = m  # stride w=1: column j occupies bit j
             bits.append(mk_aff(1, rows[key] ^ 1, ents))
         return and1(bits)
